@@ -354,6 +354,16 @@ def r4_algebra(repo: Repo, rep):
         rets = [dump(p.ret) for p in paths(fi.node) if p.ret is not RAISE]
         a, b = fi.params[1], fi.params[2]
         rep.check(R, sorted(rets) == sorted([b, f"{a} | {b}"]), fi.site(), fi.fq, "_set_sampled_points appends behind the accumulated points", str(rets), str(rets))
+    fi = base.methods.get("_sample_params_independent")
+    if fi is not None:
+        rep.saw(fi)
+        for p in paths(fi.node):
+            if p.ret is RAISE:
+                continue
+            sl = [e for e in p.events if e.kind == "call" and isinstance(e.value, ast.Call) and dump(e.value.func) == "self.set_length"]
+            good = len(sl) == 1 and dump(sl[0].value.args[0]).startswith("len(sample_function(") and ".repeat" not in dump(sl[0].value.args[0]) and ".join" not in dump(sl[0].value.args[0])
+            rep.check(R, good, fi.site(), fi.fq, "length recorded from the un-replicated sample (len(sampler) == rows of a parameter-free call)",
+                      dump(sl[0].value)[:120] if sl else "no set_length", "set_length: " + (dump(sl[0].value.args[0])[:80] if sl else "none"))
     fi = base.methods.get("sample_points")
     if fi is not None:
         rep.saw(fi)
@@ -500,6 +510,48 @@ def r6_counts(repo: Repo, rep):
                           f"fails e.g. m={w[0]}, k={w[1]}: {w[2]}" if w else "ok", f"params rows: {dump(Y)[:80]}")
 
 
+def r6b_union_topup(repo: Repo, rep):
+    R = "R-C02-6"
+    shape_attrs = _shape_attrs(repo)
+    ci = repo.cls(f"{OPS}.union.UnionDomain")
+    fi = ci.methods.get("_sample_grid_with_n")
+    if fi is None:
+        rep.undecided(R, ci.module.relpath, ci.fq, "_sample_grid_with_n", "vanished: idiom not recognised")
+        return
+    rep.saw(fi)
+    keep = lambda f: f.name.startswith("_") and not f.name.startswith("__") and f.name not in ("_repeat_params", "_points_lay_in_other_domain", "_get_volume")
+    for p in paths(fi.node):
+        if p.ret is RAISE or p.ret is None:
+            continue
+        ret = expand_helpers(repo, ci, p.ret, accept=keep)
+        # the share of domain_a is an opaque integer: the `n=` argument of the domain_a grid call
+        acalls = [c for c in ast.walk(ret) if isinstance(c, ast.Call) and dump(c.func) == "self.domain_a.sample_grid"]
+        if not acalls:
+            rep.undecided(R, fi.site(p.ret_node), fi.fq, "grid of domain_a in the result", dump(ret)[:80])
+            continue
+        sa_expr = kwarg(acalls[0], "n", 0)
+        topped = any(isinstance(c, ast.Call) and dump(c.func) == "self.domain_b.sample_grid" for c in ast.walk(ret))
+        if not topped:
+            # path without top-up: the guard says the a-share already is n (n - scaled_n <= 0)
+            continue
+        bad, decided = [], 0
+        try:
+            for n in (3, 5, 8):
+                for sa in range(1, n):  # the top-up path requires n - sa > 0
+                    for j in range(0, sa + 1):  # kept a-points (not inside b)
+                        ev = RowEval(rows={"params": 0, "<where>": j}, ints={"n": n, dump(sa_expr): sa}, shape_fn_attrs=shape_attrs)
+                        r = ev.rows(ret)
+                        decided += 1
+                        if r != n:
+                            bad.append((n, sa, j, r))
+        except Unknown as u:
+            rep.undecided(R, fi.site(p.ret_node), fi.fq, "row count of the topped-up union grid evaluable", str(u))
+            continue
+        w = bad[0] if bad else None
+        rep.check(R, not bad, fi.site(p.ret_node), fi.fq, "kept a-points + topped-up b-points == n rows for every number of dropped points",
+                  f"fails for {len(bad)} of {decided} instantiations, e.g. n={w[0]}, a-grid={w[1]}, kept={w[2]}: {w[3]} rows" if w else f"{decided} instantiations", "union grid top-up")
+
+
 def _abstract_counts(e) -> str:
     out = []
     for n in ast.walk(e):
@@ -593,6 +645,7 @@ def run(repo: Repo, rep):
     r4_algebra(repo, rep)
     r5_definite_assignment(repo, rep, thorough=(rep.tier == "thorough"))
     r6_counts(repo, rep)
+    r6b_union_topup(repo, rep)
     r7_grid_single_row(repo, rep)
     r8_allocation(repo, rep)
 
